@@ -7,7 +7,11 @@ here) are replayed in the model, whose monad keeps the effects done before a rai
 state dump is compared after every step.
 Oracle: around every RAISING call the target element and its ancestors are dumped (encoding with
 both trailing_children settings, and the identity of every listed descendant): the dumps must be
-equal.  The histories end with a catalogue of rejectable operations applied to the state reached.
+equal.  The histories end with a catalogue of rejectable operations applied to the state reached, rejected
+MOVES of an attached child included: the element the child is attached to is watched too (kind
+rejected-move-detaches-source).  Segment.value = text on open-ended segments holding fields beyond their structure
+(Z-segments, QPD) is an oracle-only family (family segment-value): a refused value leaves children and both
+encodings unchanged.
 """
 import json
 import os
@@ -38,35 +42,55 @@ def shape(x, ec):
 
 def targets_of(impl, op):
     """the elements a call may legitimately change: its target (and, for a parent assignment, the
-    would-be parent); elements handed in as values are covered through their own parents"""
+    would-be parent) with role 'target'; elements handed in - as values, or as the child of add / remove - with role
+    'source': through their ancestors the element they are attached to at the time of the call is watched too"""
     k = op[0]
     hs = []
     if k.startswith('new'):
         return []
     if k == 'setparent':
-        hs = [op[1]] + ([op[2]] if op[2] is not None else [])
+        hs = [(op[1], 'source')] + ([(op[2], 'target')] if op[2] is not None else [])
     else:
-        hs = [op[1]]
+        hs = [(op[1], 'target')]
+    if k in ('add', 'remove') and isinstance(op[2], int):
+        hs.append((op[2], 'source'))
     for a in op:
         if isinstance(a, (list, tuple)) and len(a) >= 2 and a[0] == 'e':
-            hs.append(a[1])
+            hs.append((a[1], 'source'))
     out = []
-    for h in hs:
+    for h, role in hs:
         if 0 <= h < len(impl.I):
-            out.append(impl.I[h])
+            out.append((impl.I[h], role))
     return out
 
 
 def with_ancestors(elems):
-    out, seen = [], set()
-    for x in elems:
+    """-> (elements, roles): every element with its ancestors; the role of the first mention wins"""
+    out, roles, seen = [], [], set()
+    for x, role in elems:
         y, n = x, 0
         while y is not None and id(y) not in seen and n < 8:
             seen.add(id(y))
             out.append(y)
+            roles.append(role)
             y = y._parent
             n += 1
-    return out
+    return out, roles
+
+
+def report(run, state, after, fam, v, lvl, code, op, ops, kk):
+    """a rejected call changed something it had been watching"""
+    j = [a != b for a, b in zip(after, state['before'])].index(True)
+    if state['roles'][j] == 'source':
+        # the element handed in was attached somewhere: that place lost it although the call was refused
+        run.fail('rejected-move-detaches-source', 'a rejected %s of an element that is attached elsewhere changed the element '
+                 'it was attached to: %s -> %s' % (op[0], state['before'][j][0][:120], after[j][0][:120]),
+                 family=fam, version=v, level=lvl, outcome=code, operation=op[0], ops=ops, step=kk)
+        return
+    run.fail('not-atomic', 'a rejected call changed its target: %s -> %s'
+             % (state['before'][j][0][:120], after[j][0][:120]),
+             family=fam, new_datatype_kind=state['ndk'], version=v, level=lvl, outcome=code,
+             operation=op[0], ops=ops, step=kk)
 
 
 def other_level(impl, op):
@@ -84,6 +108,8 @@ def classify(impl, op, code):
     k = op[0]
     if k == 'setvaluedt':
         return 'value-datatype-object'
+    if k == 'setvalue' and isinstance(op[1], int) and 0 <= op[1] < len(impl.I) and isinstance(impl.I[op[1]], Segment):
+        return 'segment-value'
     if k in ('setvaluechain', 'setvalue', 'setvaluenone'):
         return 'value-assignment'
     if k == 'setdatatype':
@@ -140,6 +166,20 @@ def catalogue(rng, g):
         ops.append(['newfield', lvl, nm, None])
         ops.append(['add', x, len(I) + (2 if len(rows) > 1 else 1)])      # cardinality overflow when max is 1 (STRICT)
         ops.append(['add', x, len(I) + (2 if len(rows) > 1 else 1)])
+    if row is not None:
+        # moving a child that is ATTACHED to x into another segment that refuses it: a second segment of the same kind
+        # that already has the (non-repeatable, under STRICT) child, and one of the other validation level
+        nm = rows[0][0]
+        base = len(I) + sum(1 for o in ops if o[0].startswith('new') or o[0] == 'grab')
+        txt = H.gen_text(rng, rows[0][1], 0, impl.ec, False)
+        ops.append(['setattr', x, [nm.lower()], ['t', txt]])
+        ops.append(['newseg', lvl, X.name])                          # base
+        ops.append(['setattr', base, [nm.lower()], ['t', txt]])
+        ops.append(['grab', x, [nm.lower()], 0])                     # base + 1: the attached child of x
+        ops.append(['add', base, base + 1])                          # refused under STRICT (cardinality), after the pointer moved
+        ops.append(['newseg', other, X.name])                        # base + 2
+        ops.append(['add', base + 2, base + 1])                      # refused: other validation level
+        ops.append(['setattr', base + 2, [nm.lower()], ['e', base + 1]])
     if flds:
         f = rng.choice(flds)
         ops.append(['setdatatype', f, rng.choice(['CE', 'CX', 'XPN'])])   # refused on a populated field (F9)
@@ -173,8 +213,9 @@ def main(argv=None):
 
             def hook(impl, kk, op, phase, data, state=state, g=g, v=v, lvl=lvl):
                 if phase == 'before':
-                    els = with_ancestors(targets_of(impl, op))
+                    els, roles = with_ancestors(targets_of(impl, op))
                     state['els'] = els
+                    state['roles'] = roles
                     state['before'] = [shape(x, impl.ec) for x in els]
                     state['family'] = classify(impl, op, None)
                     state['ndk'] = new_datatype_kind(impl, op)
@@ -188,13 +229,13 @@ def main(argv=None):
                 stats['by_family'][fam] = stats['by_family'].get(fam, 0) + 1
                 shapes.add((v, lvl, op[0], code, fam))
                 after = [shape(x, impl.ec) for x in state['els']]
+                if any(r == 'source' and x._parent is not None and any(c is x for c in x._parent.children.list)
+                       for x, r in zip(state['els'], state['roles'])) or \
+                        any(r == 'source' and i > 0 and state['roles'][i - 1] == 'source' for i, r in enumerate(state['roles'])):
+                    stats['rejected_with_attached_argument'] = stats.get('rejected_with_attached_argument', 0) + 1
                 if after != state['before']:
                     stats['changed_by_family'][fam] = stats['changed_by_family'].get(fam, 0) + 1
-                    j = [a != b for a, b in zip(after, state['before'])].index(True)
-                    run.fail('not-atomic', 'a rejected call changed its target: %s -> %s'
-                             % (state['before'][j][0][:120], after[j][0][:120]),
-                             family=fam, new_datatype_kind=state['ndk'], version=v, level=lvl, outcome=code,
-                             operation=op[0], ops=g.ops + [op], step=kk)
+                    report(run, state, after, fam, v, lvl, code, op, g.ops + [op], kk)
             g.run(hook)
             for op in catalogue(rng, g):
                 stats['catalogue_steps'] += 1
@@ -209,6 +250,31 @@ def main(argv=None):
             if len(samples) < 4 and k % 71 == 3:
                 samples.append({'version': v, 'level': lvl, 'ops': g.ops, 'codes': g.codes})
         all_cases[v] = cases
+    # Segment.value = text on segments that hold fields beyond their structure (Z-segments, QPD): the whole-value
+    # assignment of a segment is outside the Coq model's operation alphabet, so these histories are judged by the
+    # oracle only - a refused value (too long / unknown component / subcomponent below a base datatype under STRICT,
+    # another segment's text) leaves children AND encodings (both trailing_children settings) as they were
+    stats['segment_value_histories'] = stats['segment_value_rejected'] = 0
+    for v in versions:
+        lib = H.hl7apy.load_library(v)
+        for sname in ['ZIN', 'ZXX'] + (['QPD'] if 'QPD' in lib.SEGMENTS else []):
+            n0 = 3 if sname == 'QPD' else 0
+            low = sname.lower()
+            bads = ['%s|%s' % (sname, 'x' * 70000), '%s|a^b^c^d^e^f^g^h^i|tag' % sname, '%s|a&b&c^d' % sname,
+                    '%s|1|2|%s' % (sname, 'y' * 70000), 'PID|1', '%s|ok' % sname]
+            for lvl in (H.STRICT, H.STRICT, H.TOLERANT):
+                for _ in range(3 if run.thorough else 1):
+                    ops = [['newseg', lvl, sname]]
+                    if sname == 'QPD':
+                        ops += [['setattr', 0, ['qpd_1'], ['t', 'Q22^Find']], ['setattr', 0, ['qpd_2'], ['t', '111']]]
+                    extra = rng.sample([n0 + 1, n0 + 2, n0 + 3, n0 + 5], rng.randint(1, 3))
+                    for i in extra:
+                        ops.append(['setattr', 0, ['%s_%d' % (low, i)], ['t', rng.choice(['a', 'b', 'e'])]])
+                    for bad in rng.sample(bads, 3):
+                        ops.append(['setvalue', 0, bad])
+                        ops.append(['toer7', 0])
+                    stats['segment_value_histories'] += 1
+                    oracle_on_history(run, v, ops, stats)
     H.shrink_oracle_failures(run, oracle_on_history, ('family', 'new_datatype_kind'))
     run.log('implementation side: %d steps, %d raising calls checked, %d changed their target'
             % (stats['steps'], stats['raising_calls_checked'], len(run.failures)))
@@ -241,25 +307,25 @@ def main(argv=None):
     ])
 
 
-def oracle_on_history(run, v, ops):
+def oracle_on_history(run, v, ops, stats=None):
     state = {}
 
     def hook(impl, kk, op, phase, data):
         if phase == 'before':
-            els = with_ancestors(targets_of(impl, op))
+            els, roles = with_ancestors(targets_of(impl, op))
             state['els'] = els
+            state['roles'] = roles
             state['before'] = [shape(x, impl.ec) for x in els]
             state['family'] = classify(impl, op, None)
             state['ndk'] = new_datatype_kind(impl, op)
             return
         if data[0] in (0, 50):
             return
+        if stats is not None and state['family'] == 'segment-value':
+            stats['segment_value_rejected'] += 1
         after = [shape(x, impl.ec) for x in state['els']]
         if after != state['before']:
-            j = [a != b for a, b in zip(after, state['before'])].index(True)
-            run.fail('not-atomic', 'a rejected call changed its target: %s -> %s'
-                     % (state['before'][j][0][:120], after[j][0][:120]), family=state['family'],
-                     new_datatype_kind=state['ndk'], version=v, outcome=data[0], operation=op[0], ops=ops[:kk + 1], step=kk)
+            report(run, state, after, state['family'], v, None, data[0], op, ops[:kk + 1], kk)
     H.run_history(v, ops, hook)
 
 
